@@ -4,6 +4,7 @@ package props
 import (
 	"mcverif/engine"
 	"mcverif/props/c01"
+	"mcverif/props/c02"
 	"mcverif/props/c04"
 	"mcverif/props/c07"
 	"mcverif/props/c08"
@@ -19,6 +20,7 @@ import (
 
 var Registry = map[string]engine.Spec{
 	"C01": c01.Spec,
+	"C02": c02.Spec,
 	"C04": c04.Spec,
 	"C07": c07.Spec,
 	"C08": c08.Spec,
